@@ -186,13 +186,15 @@ func normalizeStream(b []byte) []byte {
 	out := []byte{}
 	for _, d := range docs {
 		es, ok := walkElems(d)
-		if !ok {
+		// only a document that the lenient walk reproduces byte for byte is rewritten;
+		// anything else (a malformed frame) is passed on untouched
+		if !ok || !bytes.Equal(buildDoc(es), d) {
 			out = append(out, d...)
 			continue
 		}
 		changed := false
 		for i, e := range es {
-			if e.key == "data" && e.t == 0x05 && len(e.val) >= 5+4 {
+			if e.key == "data" && e.t == 0x05 && len(e.val) >= 5+4 && int(binary.LittleEndian.Uint32(e.val)) == len(e.val)-5 {
 				zb := e.val[5:]
 				raw, hok, _ := inflateAll(zb[4:])
 				nd := append([]byte{}, zb[:4]...)
